@@ -155,8 +155,8 @@ Agg == [v |-> "doc",
 Pas(d) == [status |-> d.status, mon |-> d.mon, det |-> d.det, count |-> d.count]   \* proxyAgentStatus
 NoEvent == [v |-> "none"]
 
-\* pcs at which the iteration has already read something and has not yet published
-InWindow == pc \in {"kk_m", "kk_x", "rd_s", "rd_m", "ps_s", "ps_m", "mon", "tl_s", "tl_m", "cnt", "conn", "fail",
+\* pcs of the iteration window: from the Wake to the rename
+InWindow == pc \in {"kk_s", "kk_m", "kk_x", "rd_s", "rd_m", "ps_s", "ps_m", "mon", "tl_s", "tl_m", "cnt", "conn", "fail",
                     "event", "create", "write", "rename"}
 
 Init ==
